@@ -322,7 +322,7 @@ func genPartitionChart(rng *rand.Rand, idx int) *pchart {
 	} else if len(fs) > 1 {
 		fb = "2-3"
 	}
-	pc.Shape = fmt.Sprintf("part|files=%s|docs=%s|crlf=%v|seps=%s|classes=%s|partial=%v|notes=%v", fb, bucket(id), anyCRLF, strings.Join(ss, "+"), strings.Join(cs, "+"), hasPartial, hasNotes)
+	pc.Shape = fmt.Sprintf("part|files=%s|docs=%s|crlf=%v|sep-variants=%d|classes=%s|partial=%v|notes=%v", fb, bucket(id), anyCRLF, len(ss), strings.Join(cs, "+"), hasPartial, hasNotes)
 	return pc
 }
 
